@@ -537,6 +537,61 @@ def scen_c13(program, kill_after, nsurv, csdur, prio_idx, reentrant, ctor_timeou
     return sorted(set(devs))
 
 
+def scen_c13_waiter(kill_after, hold, poll, prio_idx):
+    """a contender is already polling with a timed acquire (poll interval `poll`) while the holder keeps the lock for `hold` ticks and is
+    then killed: the contender gets the lock within one poll interval of the death (promptly), not after a back-off"""
+    global LAST_INFO, RAW
+    prio = vt.permutation(2, pick(prio_idx, 2))
+    env = Env(prio=prio, trace=not tracing())
+    W, K = env.w, env.k
+    st = {'dead_at': None, 'got_at': None, 'got': None, 'holding': False}
+    vlock = env.lock(-1, False)
+
+    async def victim():
+        await vt.call(vlock.acquire)
+        st['holding'] = True
+        await vt.Tok('sleep', W.now + hold)
+        await vt.sp('after-hold')
+        await vt.call(vlock.release)
+        st['holding'] = False
+        await vt.Tok('sleep', W.now + 200)
+
+    def on_kill(pid):
+        K.kill(pid)
+        st['dead_at'] = W.now
+        st['died_holding'] = st['holding']
+    W.on_kill = on_kill
+    W.kill_at = {1: kill_after}
+    W.spawn('V', victim(), pid=1)
+
+    async def waiter():
+        await vt.Tok('blocked', lambda: st['holding'] or st['dead_at'] is not None)
+        l = env.lock(-1, False)
+        st['started_at'] = W.now
+        st['got'] = await vt.call(l.acquire, True, 150, poll)
+        st['got_at'] = W.now
+        if st['got']:
+            await vt.call(l.release)
+    W.spawn('S', waiter(), pid=2)
+    r = W.run()
+    W.abandon_all()
+    devs = []
+    if r == 'stepbound':
+        devs.append('schedule-does-not-terminate')
+    elif st['dead_at'] is not None and st.get('died_holding'):
+        if st['got'] is not True:
+            devs.append('lock-stuck-after-holder-died')
+        elif st['got_at'] - max(st['dead_at'], st.get('started_at', 0)) > poll + 1:
+            devs.append('waiting-contender-not-prompt-after-holder-died')
+    for t in W.threads:
+        if t.exc is not None and t.name != 'V':
+            devs.append('survivor-raised:' + type(t.exc).__name__)
+    RAW = dict(st)
+    if not tracing():
+        LAST_INFO = {'kill_after': kill_after, 'hold': hold, 'poll': poll, 'result': r, 'state': dict(st)}
+    return sorted(set(devs))
+
+
 def twin_c13(kill_after):
     """Reachability: 'the victim died while holding the OS lock' never happens."""
     d = scen_c13(0, kill_after, 1, 1, 0, False, -1)
@@ -668,6 +723,9 @@ def cells(prop, tier):
                     out.append(Cell(name='c13_prog%d_re%d_surv%d' % (prog, re, ns), sig='kill_after: int, csdur: int, prio_idx: int',
                                     pre=['1 <= kill_after <= 60 and 0 <= csdur <= 1 and 0 <= prio_idx <= %d' % ns],
                                     body='H.scen_c13(%d, kill_after, %d, csdur, prio_idx, %r, -1)' % (prog, ns, re), tier=q, timeout=600, family='c13', weight=3 + ns))
+        out.append(Cell(name='c13_polling_waiter', sig='kill_after: int, hold: int, poll: int, prio_idx: int',
+                        pre=['1 <= kill_after <= 45 and 3 <= hold <= 40 and 1 <= poll <= 2 and 0 <= prio_idx <= 1'],
+                        body='H.scen_c13_waiter(kill_after, hold, poll, prio_idx)', tier=q, timeout=600, family='c13', weight=4))
         out.append(Cell(name='twin_c13', sig='kill_after: int', pre=['1 <= kill_after <= 40'], body='H.twin_c13(kill_after)',
                         expect='refute', timeout=200, family='c13'))
         if tier == 'thorough':
